@@ -52,14 +52,21 @@ CHECKS = {
         "min_nontrivial_frac": 0.2,
     },
     "C13": {
-        "jobs": [job("h_wrapint", 40000, 8, 500000, 16, fuzz_secs=240, fuzz_procs=8)],
+        "jobs": [job("h_wrapint", 40000, 8, 500000, 16, fuzz_secs=240, fuzz_procs=8),
+                 job("h_fwd-wint", 1500, 2, 20000, 4, fuzz_secs=300, fuzz_procs=2)],
         "rule": "(a) wrapint: widths 1..64, operands biased to 0, 1, 2^(w-1)+-1, 2^w-1, every public operation against a uint64/__int128 reference; "
                 "(b) wrapped_interval: (start,end,w) incl. pole-crossing, top, bottom, singletons, every operation; exhaustive over gamma(a) x gamma(b) "
                 "for w <= 6, sampled members otherwise, membership through at(wrapint); non-trivial = (a) the w-bit result differs from the unbounded "
-                "result or a signed op has a negative operand, (b) an operand crosses a pole; distinct = hash of width+operands+operation",
+                "result or a signed op has a negative operand, (b) an operand crosses a pole; (c) the C01 program generator over wrapped_interval_domain "
+                "with 32/64-bit variables, conditions only of the forms x~c and x~y with constants inside the signed width, executed by the reference "
+                "interpreter in machine-integer mode (every write reduced modulo 2^w and read as signed; udiv/urem/lshr on the unsigned reading; shifts "
+                "by less than w; real trunc/sext/zext), initial and havoc values biased to the signed/unsigned boundaries; membership of every reached "
+                "state in the reported invariant; non-trivial (c) = an execution on which some write wrapped, checked against an invariant that is "
+                "neither top nor bottom; distinct = hash of width+operands+operation (a,b) / CFG+parameters (c)",
         "assumptions": ["equal bitwidths, divisor != 0, shift amount < w, keep_lower(k) with 1 <= k <= w (preconditions in the code)",
                         "INT_MIN / -1 is skipped and counted (undocumented)", "widening requires w > 1 (assert in the code)",
-                        "part (c) of the design (programs under machine-integer semantics on the wrapped-interval domain) is not built yet"],
+                        "part (c): wrapped_interval_with_history_domain and wrapped_numerical_domain are compiled out of the tree (#if 0, 'EXPERIMENTAL CODE') and are not tested",
+                        "part (c): INT_MIN sdiv/srem -1 and shifts by >= w truncate the execution"],
         "min_nontrivial_frac": 0.2,
     },
     "C06": {
